@@ -948,6 +948,21 @@ pub fn tls_probe_versions<S: IoRead + IoWrite + std::fmt::Debug>(stream: S, sni:
     }
 }
 
+/// Completes a handshake and hands the live session back (nothing is sent afterwards, no close_notify): for clients that linger.
+pub fn tls_connect_keep<S: IoRead + IoWrite + std::fmt::Debug>(stream: S, sni: &str, protos: &[String]) -> Option<openssl::ssl::SslStream<S>> {
+    let mut b = SslConnector::builder(SslMethod::tls()).ok()?;
+    b.set_verify(SslVerifyMode::NONE);
+    if !protos.is_empty() {
+        let _ = b.set_alpn_protos(&alpn_wire(protos));
+    }
+    let conn = b.build();
+    let mut cfg = conn.configure().ok()?;
+    cfg.set_verify_hostname(false);
+    let use_sni = !sni.is_empty() && sni.parse::<std::net::IpAddr>().is_err();
+    cfg.set_use_server_name_indication(use_sni);
+    cfg.connect(sni, stream).ok()
+}
+
 /// Like `tls_probe` but sends `sni` as the server name whatever it contains.
 pub fn tls_probe_sni<S: IoRead + IoWrite + std::fmt::Debug>(stream: S, sni: &str, protos: &[String]) -> Value {
     let mut b = match SslConnector::builder(SslMethod::tls()) {
